@@ -141,6 +141,81 @@ EncodeArg(e) ==
     /\ Chk(e, "C04", "bytes_equal_reference", (spec.ok /\ okc) => e.out.b = spec.b)
     /\ UNCHANGED << legacy, tz >>
 
+\* ---- static traces: catalogue (C14), reply codes and constants (C17) --------
+SpecKeys == { Methods[i].cid * 65536 + Methods[i].mid : i \in 1..Len(Methods) }
+SeqSet(q) == { q[i] : i \in 1..Len(q) }
+
+MappingKeys(e) ==
+    /\ Chk(e, "C14", "exactly_the_64_indices", SeqSet(e.keys) = SpecKeys /\ e.n = 64 /\ Len(e.keys) = 64)
+    /\ UNCHANGED << legacy, tz >>
+
+DefaultOk(got, a) == IF a.def.t = "nodef" THEN got.t = "none" ELSE SameValue(got, a.def)
+
+CatalogEntry(e) ==
+    LET c == e.key \div 65536 mid == e.key % 65536
+        known == HasMethodId(c, mid)
+        m == MethodById(c, mid)
+        n == Len(m.args)
+    IN
+    /\ Chk(e, "C14", "key_is_a_specified_method", known)
+    /\ Chk(e, "C14", "index", known => e.index = e.key)
+    /\ Chk(e, "C14", "method_id", known => e.frame_id = mid)
+    /\ Chk(e, "C14", "dotted_name", known => e.name = m.name)
+    /\ Chk(e, "C14", "argument_names_in_wire_order", known => (e.slots = ArgNames(m) /\ e.attributes = ArgNames(m)))
+    /\ Chk(e, "C14", "argument_wire_types", known => e.types = [i \in 1..n |-> m.args[i].ty])
+    /\ Chk(e, "C14", "expects_reply_flag", known => (e.sync = Synchronous(m) /\ e.sync_is_bool))
+    /\ Chk(e, "C14", "valid_replies", known => e.responses = m.resp)
+    /\ Chk(e, "C14", "reply_iff_synchronous", e.sync = (e.responses # <<>>))
+    /\ Chk(e, "C14", "constructor_defaults",
+           (known /\ Len(e.defaults) = n) => \A i \in 1..n : DefaultOk(e.defaults[i], m.args[i]))
+    /\ Chk(e, "C14", "documented_defaults", (known /\ Len(e.docs) = n) => \A i \in 1..n : e.docs[i] = m.args[i].doc)
+    /\ UNCHANGED << legacy, tz >>
+
+PropertiesEntry(e) ==
+    /\ Chk(e, "C14", "properties_names_in_order", e.slots = [i \in 1..14 |-> Properties[i].n])
+    /\ Chk(e, "C14", "properties_wire_types", e.types = [i \in 1..14 |-> Properties[i].ty])
+    /\ Chk(e, "C14", "properties_flag_bits_15_to_2", e.flags = [i \in 1..14 |-> Properties[i].flag] /\ e.nflags = 14)
+    /\ Chk(e, "C14", "properties_ids", e.frame_id = 60 /\ e.index = 60 /\ e.name = "Basic.Properties")
+    /\ Chk(e, "C14", "properties_defaults",
+           Len(e.defaults) = 14 /\ \A i \in 1..14 :
+               IF Properties[i].n = "cluster_id" THEN e.defaults[i] = MkStr(<<>>) ELSE e.defaults[i].t = "none")
+    /\ UNCHANGED << legacy, tz >>
+
+ClassIds == [Connection |-> 10, Channel |-> 20, Exchange |-> 40, Queue |-> 50, Basic |-> 60, Tx |-> 90, Confirm |-> 85]
+ClassEntry(e) ==
+    /\ Chk(e, "C14", "class_id", e.frame_id = ClassIds[e.name] /\ e.index = ClassIds[e.name] * 65536)
+    /\ UNCHANGED << legacy, tz >>
+
+ReplyKeys(e) ==
+    /\ Chk(e, "C17", "exactly_the_specified_codes", SeqSet(e.keys) = { ReplyCodes[i].value : i \in 1..18 } /\ Len(e.keys) = 18)
+    /\ Chk(e, "C17", "one_class_per_code", Cardinality(SeqSet(e.classes)) = 18)
+    /\ UNCHANGED << legacy, tz >>
+
+ReplyCode(e) ==
+    LET known == \E i \in 1..18 : ReplyCodes[i].value = e.key
+        r == ReplyCodes[CHOOSE i \in 1..18 : ReplyCodes[i].value = e.key]
+    IN
+    /\ Chk(e, "C17", "code_is_specified", known)
+    /\ Chk(e, "C17", "numeric_value", known => e.value = r.value)
+    /\ Chk(e, "C17", "upper_case_name", known => e.name = r.name)
+    /\ Chk(e, "C17", "soft_or_hard_base", known => (e.soft = (r.kind = "soft") /\ e.hard = (r.kind = "hard")))
+    /\ Chk(e, "C17", "common_bases", e.amqp /\ e.base /\ e.is_exc)
+    /\ UNCHANGED << legacy, tz >>
+
+ConstantsEv(e) ==
+    LET c == e.c k == Constants IN
+    /\ Chk(e, "C17", "frame_types", c.FRAME_METHOD = k.FRAME_METHOD /\ c.FRAME_HEADER = k.FRAME_HEADER
+                                     /\ c.FRAME_BODY = k.FRAME_BODY /\ c.FRAME_HEARTBEAT = k.FRAME_HEARTBEAT)
+    /\ Chk(e, "C17", "frame_end", c.FRAME_END = k.FRAME_END /\ c.FRAME_END_CHAR = k.FRAME_END_CHAR)
+    /\ Chk(e, "C17", "frame_min_size", c.FRAME_MIN_SIZE = k.FRAME_MIN_SIZE)
+    /\ Chk(e, "C17", "header_size", c.FRAME_HEADER_SIZE = k.FRAME_HEADER_SIZE)
+    /\ Chk(e, "C17", "protocol_version", c.VERSION = k.VERSION /\ c.AMQP = k.AMQP)
+    /\ UNCHANGED << legacy, tz >>
+
+UnmarshalingExc(e) ==
+    /\ Chk(e, "C17", "unmarshaling_exception_base", e.base)
+    /\ UNCHANGED << legacy, tz >>
+
 ToggleArg(a) == IF a = "false" THEN FALSE ELSE TRUE      \* "true", "noarg" -> TRUE
 Toggle(e) == legacy' = ToggleArg(e.arg) /\ UNCHANGED tz
 SetTZ(e)  == tz' = e.z /\ UNCHANGED legacy
@@ -153,6 +228,14 @@ Step == /\ l <= Len(Events)
              [] e.a = "EncodeFixed" -> EncodeFixed(e)
              [] e.a = "MarshalPart" -> MarshalPart(e)
              [] e.a = "EncodeArg"   -> EncodeArg(e)
+             [] e.a = "MappingKeys" -> MappingKeys(e)
+             [] e.a = "CatalogEntry" -> CatalogEntry(e)
+             [] e.a = "PropertiesEntry" -> PropertiesEntry(e)
+             [] e.a = "ClassEntry"  -> ClassEntry(e)
+             [] e.a = "ReplyKeys"   -> ReplyKeys(e)
+             [] e.a = "ReplyCode"   -> ReplyCode(e)
+             [] e.a = "Constants"   -> ConstantsEv(e)
+             [] e.a = "UnmarshalingExc" -> UnmarshalingExc(e)
              [] e.a = "Toggle"      -> Toggle(e)
              [] e.a = "SetTZ"       -> SetTZ(e)
 
